@@ -138,6 +138,15 @@ PROPS.update({
     },
 })
 
+PROPS.update({
+    "C19": {
+        "runs": [("C19", "std", "normal")],
+        "rule": "harness built with features serde + serde_repr; inputs are serde_json::Value trees fed through serde_json::from_value. tag 190: every integer of -300..17000 (thorough -70000..70000) plus boundaries for each restricted integer type; all u8-ish values for ShortMessageType; names/forms for TimeCodeType and DataType; for every composite type the product of boundary values per field x {map, map with unknown key, sequence, missing field, short sequence, long sequence, wrong-typed field}, unknown variants, unit/newtype/struct variant forms, wrong JSON types; after a successful deserialization the panicking accessors (type(), lsb_controller_number(), to_short_messages()) are called. tag 191: serialize -> deserialize round trip of valid values of every type",
+        "exhaustive": {},
+        "assumptions": ["serde, serde_derive, serde_repr, serde_json are trusted (modelled in Model/Serde.v, tied by the correspondence)"],
+    },
+})
+
 HOOK_COMMITS = ["8ffd056"]
-FIX_COMMITS = ["f23ae2b", "0a7a8ec", "6f3a6a3"]
+FIX_COMMITS = ["f23ae2b", "0a7a8ec", "6f3a6a3", "7110a3c", "3bb8a42", "efa1406"]
 NOT_YET = {}
